@@ -782,6 +782,75 @@ fn consume_last(pre: &[u8], kind: u8) -> CaseOut {
 /// An object that is the last holder of the context is dropped: the instance must be destroyed before the
 /// context is released. which: 0 node object, 1 leaf object, 2..=5 group (enabled sets), 6 cast group (Clone),
 /// 7 final group (Extra), 8 owned child object of a dropped parent, 9 owned child group of a dropped parent
+/// A consuming vtable entry called the way the generated C / C++ headers call it (cglue-bindgen, Function::create_wrapper):
+///     ctx guard = clone(self.container.context); ret = self.vtbl->entry(self.container /* by value */, args); drop(guard);
+/// the entry owns the container: instance and context are released by the callee (or move into the wrapped value it returns).
+/// kind: 0 consume, 1 consume_res Ok, 2 consume_res Err, 3 consume_into, 4 consume_try (first call: Ok), 5 consume_try_int
+fn foreign_consume(kind: u8, group: bool) -> CaseOut {
+    use cglue::trait_group::{CGlueObjBase, GetContainer};
+    let arc = Arc::new(());
+    let count = |a: &Arc<()>| Arc::strong_count(a);
+    let mut held_after = 0usize;
+    let what = ["consume", "consume_res (Ok)", "consume_res (Err)", "consume_into", "consume_try", "consume_try_int"][kind as usize];
+    let bad = |sig: &str, at: &str, got: usize, want: usize| CaseOut::bad(sig, format!("{} called through the vtable the way the C header calls it ({}): context count {} {}, expected {} (1 owner{})", what, if group { "object cast from a group" } else { "single-trait object" }, got, at, want, if want > 1 { " + guard / returned child" } else { "" }));
+    macro_rules! run {
+        ($obj:expr) => {{
+            let obj = $obj;
+            if count(&arc) != 2 {
+                return bad("fctx:setup", "after building the object", count(&arc), 2);
+            }
+            let vt = obj.get_vtbl();
+            let (f0, f1, f2, f3, f4) = (vt.consume(), vt.consume_res(), vt.consume_into(), vt.consume_try(), vt.consume_try_int());
+            let cont = obj.into_ccont();
+            let guard = cont.cobj_base_ref().1.clone();
+            if count(&arc) != 3 {
+                return bad("fctx:setup", "after cloning the guard", count(&arc), 3);
+            }
+            // what the call returns may hold the context (a wrapped child): it is kept until after the guard is gone
+            let mut child: Option<Box<dyn std::any::Any>> = None;
+            match kind {
+                0 => {
+                    let r = unsafe { f0(cont) };
+                    if r != 15 { return CaseOut::bad("fctx:result", format!("{}: returned {}", what, r)); }
+                }
+                1 | 2 => {
+                    let r: Result<u64, u32> = unsafe { f1(cont, kind == 2) }.into();
+                    if r != if kind == 2 { Err(7) } else { Ok(16) } { return CaseOut::bad("fctx:result", format!("{}: returned {:?}", what, r)); }
+                }
+                3 => {
+                    let c = unsafe { f2(cont) };
+                    if c.val() != 11 { return CaseOut::bad("fctx:result", format!("{}: child answers {}", what, c.val())); }
+                    child = Some(Box::new(c));
+                }
+                4 => {
+                    let r: Result<_, ()> = unsafe { f3(cont) }.into();
+                    match r { Ok(c) => child = Some(Box::new(c)), Err(()) => return CaseOut::bad("fctx:result", format!("{}: Err", what)) }
+                }
+                _ => {
+                    let mut out = ::core::mem::MaybeUninit::uninit();
+                    let rc = unsafe { f4(cont, &mut out) };
+                    if rc != 0 { return CaseOut::bad("fctx:result", format!("{}: status {}", what, rc)); }
+                    child = Some(Box::new(unsafe { out.assume_init() }));
+                }
+            }
+            held_after = if child.is_some() { 1 } else { 0 };
+            if count(&arc) != 2 + held_after {
+                return bad("fctx:after_call", "right after the call (the consumed object must be gone)", count(&arc), 2 + held_after);
+            }
+            drop(guard);
+            if count(&arc) != 1 + held_after {
+                return bad("fctx:after_guard", "after the guard was released", count(&arc), 1 + held_after);
+            }
+            drop(child);
+        }};
+    }
+    run!(trait_obj!((NodeImp::new(10), CArc::<()>::from(arc.clone())) as Node));
+    if count(&arc) != 1 {
+        return bad("fctx:leak", "after everything derived from the object is gone", count(&arc), 1);
+    }
+    CaseOut::ok(digest(&(kind, group, held_after)))
+}
+
 fn last_holder_drop(which: u8) -> CaseOut {
     CAPTURE.with(|c| c.set(true));
     CTX_SEQ.with(|c| c.set(0));
@@ -845,6 +914,9 @@ fn main() {
             if case.get("lt_ops").is_some() {
                 let ops: Vec<u8> = serde_json::from_value(case["lt_ops"].clone()).unwrap();
                 return lt_case(&ops);
+            }
+            if case.get("foreign_consume").is_some() {
+                return foreign_consume(case["foreign_consume"].as_u64().unwrap() as u8, case["group"].as_bool().unwrap_or(false));
             }
             if case.get("last_holder").is_some() {
                 return last_holder_drop(case["last_holder"].as_u64().unwrap() as u8);
@@ -961,6 +1033,21 @@ fn main() {
                 for which in 0..10u8 {
                     let case = json!({"last_holder": which});
                     cx.eval("consume_last", &case, || last_holder_drop(which));
+                }
+            }),
+            replay: mk_replay(),
+        });
+    }
+    if c07 {
+        sections.push(Section {
+            name: "foreign_consume",
+            explore: Box::new(|cx: &Cx| {
+                cx.rule("foreign_consume", "every consuming entry of the Node vtable (plain value, plain Result Ok / Err, wrapped child, CResult of a wrapped child, integer-coded wrapped child) called the way the generated C / C++ wrappers call it - guard clone of the context, the container passed by value to the entry taken from the vtable, guard released - on a single-trait object: the entry releases (or hands to the returned child) the consumed object's context reference; the count is back to its start when everything derived is gone");
+                for kind in 0..6u8 {
+                    for group in [false] {
+                        let case = json!({"foreign_consume": kind, "group": group});
+                        cx.eval("foreign_consume", &case, || foreign_consume(kind, group));
+                    }
                 }
             }),
             replay: mk_replay(),
